@@ -765,8 +765,28 @@ def check_affine_ops(ctx: Ctx, view: View) -> None:
     if len(nf) > 1:
         # a second definition overrides `ub - lb`: the forward factor is then no longer the range
         ctx.ob("2.7-factor", con, False, f"_norm_factor is re-assigned (`{norm_stmt(nf[-1], 70)}`): the factor used by the affine maps must be upper bounds - lower bounds (only its INVERSE may avoid the division by zero for equal bounds)", node=nf[-1], stmt="_norm_factor defined once")
+    from gv.props.shared import unfolded as _unf
+
+    cfg_u = cfg_of(upd)
+
+    def bound_source(e: ast.AST, attr: str, src: str, at: ast.AST) -> bool:
+        """``e`` (read at statement ``at``) is ``self.<src>()``, directly, through locals, or through the attribute
+        ``attr`` when its (single) assignment from ``self.<src>()`` comes before."""
+        alts = _unf(upd, e)
+        if not alts:
+            return False
+        for x in alts:
+            if isinstance(x, ast.Call) and last_attr(x) == src and isinstance(x.func, ast.Attribute) and dotted(x.func.value) == "self" and not x.args and not x.keywords:
+                continue
+            if attr_is(x, attr):
+                a_ = rules.assigns_to_self(upd, attr, ds.name)
+                if len(a_) == 1 and cfg_u.dominates(cfg_u.node_of(a_[0]), cfg_u.node_of(at)) and bound_source(a_[0].value, "\0", src, a_[0]):
+                    continue
+            return False
+        return True
+
     v = nf[0].value
-    ok = isinstance(v, ast.BinOp) and isinstance(v.op, ast.Sub) and attr_is(v.left, "__upper_bounds_array") and attr_is(v.right, "__lower_bounds_array")
+    ok = isinstance(v, ast.BinOp) and isinstance(v.op, ast.Sub) and bound_source(v.left, "__upper_bounds_array", "get_upper_bounds", nf[0]) and bound_source(v.right, "__lower_bounds_array", "get_lower_bounds", nf[0])
     ctx.ob("2.7-factor", con, ok, "_norm_factor must be upper bounds - lower bounds", node=nf[0])
     ni = rules.assigns_to_self(upd, "_norm_factor_inv")
     ctx.need(len(ni) == 1, "recomputation: _norm_factor_inv assignment not found")
@@ -779,7 +799,7 @@ def check_affine_ops(ctx: Ctx, view: View) -> None:
     ctx.ob("2.7-factor", con, ok, "_norm_factor_inv must be 1 / where(factor == 0, 1, factor): a component with equal bounds is inert", node=ni[0])
     for attr, src in (("__lower_bounds_array", "get_lower_bounds"), ("__upper_bounds_array", "get_upper_bounds")):
         a = rules.assigns_to_self(upd, attr, ds.name)
-        ok = len(a) == 1 and isinstance(a[0].value, ast.Call) and last_attr(a[0].value) == src and not a[0].value.args and not a[0].value.keywords
+        ok = len(a) == 1 and bound_source(a[0].value, "\0", src, a[0])
         ctx.ob("2.7-factor", con, ok, f"{attr} must be self.{src}()", node=(a or [upd])[0], stmt=f"{attr} = {src}()")
     a = rules.assigns_to_self(upd, "__norm_inds", ds.name)
     ok = len(a) == 1 and "normalize" in unparse(a[0].value) and "nonzero" in unparse(a[0].value) and "convert_dict_to_array" in unparse(a[0].value)
